@@ -53,6 +53,10 @@ class AwError(Exception):
     pass
 
 
+class AwBaseError(BaseException):
+    """An awaitable's failure that is not an Exception subclass."""
+
+
 def _w(rng, pairs):
     tot = sum(w for _, w in pairs)
     x = rng.random() * tot
@@ -75,7 +79,7 @@ def gen_program(rng, profile, index=None):
         if target == 'running' and rng.random() < 0.3:
             fn = 'run_aw_threadsafe'
         callers.append({'fn': fn, 'kind': _w(rng, [('coro', 5), ('future', 2), ('task', 2)]),
-                        'out': _w(rng, [('return', 7), ('raise', 3)]),
+                        'out': _w(rng, [('return', 7), ('raise', 3), ('raise_base', 1)]),
                         'delay': _w(rng, [(0.0, 4), (Q, 3), (4 * Q, 2), (1.0, 1)]),
                         'start': _w(rng, [(0.0, 6), (Q, 2), (4 * Q, 1)])})
     prog = {'world': 'cross', 'target': target, 'callers': callers}
@@ -85,7 +89,7 @@ def gen_program(rng, profile, index=None):
         c2 = []
         for _ in range(_w(rng, [(1, 3), (2, 3)])):
             c2.append({'fn': 'ensure_aw', 'kind': _w(rng, [('coro', 5), ('future', 2), ('task', 2)]),
-                       'out': _w(rng, [('return', 7), ('raise', 3)]),
+                       'out': _w(rng, [('return', 7), ('raise', 3), ('raise_base', 1)]),
                        'delay': _w(rng, [(0.0, 4), (Q, 3), (4 * Q, 2)]), 'start': _w(rng, [(0.0, 6), (Q, 2)])})
         prog['phase2'] = {'target': t2, 'callers': c2}
     return prog
@@ -141,8 +145,8 @@ class CrossWorld:
             await asyncio.sleep(d)
         else:
             await asyncio.sleep(0)
-        if C.spec['out'] == 'raise':
-            C.exc = AwError(C.i)
+        if C.spec['out'] in ('raise', 'raise_base'):
+            C.exc = (AwBaseError if C.spec['out'] == 'raise_base' else AwError)(C.i)
             raise C.exc
         C.obj = ('res', C.i)
         return C.obj
@@ -152,8 +156,8 @@ class CrossWorld:
         C.ran_on = fut.get_loop()
         if fut.done():
             return
-        if C.spec['out'] == 'raise':
-            C.exc = AwError(C.i)
+        if C.spec['out'] in ('raise', 'raise_base'):
+            C.exc = (AwBaseError if C.spec['out'] == 'raise_base' else AwError)(C.i)
             fut.set_exception(C.exc)
         else:
             C.obj = ('res', C.i)
